@@ -2012,6 +2012,13 @@ class Mailbox:
         - `flags`: A list of flags to set on this message
         - `date_time`: The internal date on this message
         """
+        # A `\Noselect` mailbox (deleted, but kept because it has inferior
+        # mailboxes or is subscribed) holds no messages. As far as APPEND and
+        # COPY are concerned it does not exist until it is created again.
+        #
+        if r"\Noselect" in self.attributes:
+            raise NoSuchMailbox(f"No such mailbox: '{self.name}'")
+
         # Make sure we convert the IMAP flags to the accepted mh sequences.
         #
         check_storable_flags(flags)
@@ -2703,6 +2710,9 @@ class Mailbox:
         messages at once, albeit more slowly then only reading and writing
         once.
         """
+        if r"\Noselect" in dst_mbox.attributes:
+            raise NoSuchMailbox(f"No such mailbox: '{dst_mbox.name}'")
+
         timeout_cm = imap_cmd.timeout_cm if imap_cmd else None
         copy_msgs: list[tuple[str, list[str], float]] = []
         start_time = time.monotonic()
